@@ -357,6 +357,12 @@ void op_begin(Part &me, char k, int obj, int arg) {
     if (g_verbose) printf("%s: call %c obj=%d arg=%d\n", pname(me).c_str(), k, obj, arg);
     me.in_call = true; me.cur = k; me.cur_obj = obj; me.cur_arg = arg; me.lin_done = false; me.blocked_now = false; me.cur_seq = -1; G->st.ops++; }
 void op_end(Part &me) {
+    // lock discipline (the mechanism the property names): a mutating call takes effect inside the critical section of ITS queue's lockout mutex
+    // (post: full queue; release / inc_live_count / enable / disable: empty queue).  If the call returns without ever having acquired that
+    // mutex, its queue update ran unprotected against concurrent callers - a data race the token scheduler cannot show by interleaving,
+    // because the unprotected region contains no schedule point.
+    if (!me.lin_done && me.cur_obj >= 0 && (me.cur == 'P' || me.cur == 'R' || me.cur == 'I' || me.cur == 'D' || me.cur == 'e' || me.cur == 't'))
+        fail(me, "lock-discipline", pname(me) + ": call '" + std::string(1, me.cur) + "' returned without acquiring the " + (me.cur == 'P' ? "full" : "empty") + "-queue lockout mutex that must protect its queue update");
     if (!me.lin_done) model_lin(me);
     if (g_verbose) {
         std::string hs; for (auto &h : me.held) hs += " obj" + std::to_string(h.obj) + "x" + std::to_string(h.refs) + (h.owner ? "o" : "") + (h.active ? "a" : "");
